@@ -150,7 +150,7 @@ func removeClass(g *graph, x int, c cellSpec) (*graph, cellSpec, bool) {
 	if c.Obj == x || c.K == x || (c.T != nil && !c.T.Iface && c.T.Idx == x) {
 		return nil, c, false
 	}
-	h := &graph{IExt: g.clone().IExt}
+	h := &graph{IExt: g.clone().IExt, NS: g.NS}
 	mp := make([]int, g.nc())
 	k := 0
 	for i := 0; i < g.nc(); i++ {
@@ -176,6 +176,9 @@ func removeClass(g *graph, x int, c cellSpec) (*graph, cellSpec, bool) {
 		h.Def = append(h.Def, g.Def[i])
 		h.Impl = append(h.Impl, append([]bool{}, g.Impl[i]...))
 	}
+	if g.anon() >= 0 && g.anon() != x {
+		h.AnonK = mp[g.anon()] + 1
+	}
 	cc := c
 	cc.Obj = mp[c.Obj]
 	if c.K >= 0 {
@@ -192,7 +195,7 @@ func removeIface(g *graph, x int, c cellSpec) (*graph, cellSpec, bool) {
 	if c.T != nil && c.T.Iface && c.T.Idx == x {
 		return nil, c, false
 	}
-	h := &graph{Parent: append([]int{}, g.Parent...), Def: append([]bool{}, g.Def...)}
+	h := &graph{Parent: append([]int{}, g.Parent...), Def: append([]bool{}, g.Def...), AnonK: g.AnonK, NS: g.NS}
 	mp := func(i int) int {
 		if i > x {
 			return i - 1
@@ -252,8 +255,40 @@ func minimise(st *stats, g *graph, c cellSpec, throwable bool, n names, full boo
 		return g, c
 	}
 	try := func(h *graph, cc cellSpec) bool {
+		if !h.valid(cc) {
+			return false
+		}
 		w, gt, _, _ := evalCellMode(st, h, cc, throwable, n, full)
 		return kind(w, gt) == target
+	}
+	// first of all: is the special way the program is written needed at all? (no namespace, the
+	// anonymous class declared by name, the object made by the factory) - a failure that survives
+	// this is the same finding as on the plain family and gets the same key
+	if g.NS != 0 {
+		h := g.clone()
+		h.NS = 0
+		if try(h, c) {
+			g = h
+		} else if g.NS == 2 {
+			h.NS = 1
+			if try(h, c) {
+				g = h
+			}
+		}
+	}
+	if g.AnonK != 0 {
+		h, cc := g.clone(), c
+		h.AnonK, cc.Mk = 0, 0
+		if try(h, cc) {
+			g, c = h, cc
+		}
+	}
+	if c.Mk != 0 {
+		cc := c
+		cc.Mk = 0
+		if try(g, cc) {
+			c = cc
+		}
 	}
 	for changed := true; changed; {
 		changed = false
@@ -301,6 +336,16 @@ func minimise(st *stats, g *graph, c cellSpec, throwable bool, n names, full boo
 				if try(h, c) {
 					g, changed = h, true
 					break
+				}
+			}
+		}
+		for ci := 0; ci < g.nc() && !changed; ci++ {
+			// cut an extends edge (the class becomes a root)
+			if g.Parent[ci] >= 0 {
+				h := g.clone()
+				h.Parent[ci] = -1
+				if try(h, c) {
+					g, changed = h, true
 				}
 			}
 		}
@@ -460,7 +505,7 @@ func checkGraph(w *pool.W, st *stats, seen map[string]bool, g *graph, n names, v
 			}
 			// dedup before the (expensive) reduction: same construct, same want/got kind and the
 			// same local shape of the pair are reduced only once per shard
-			sig := fmt.Sprintf("%s|%s|%s|%v|%s", c.Cons, wk, gk, throwable, localShape(g, c))
+			sig := fmt.Sprintf("%s|%s|%s|%v|%s|a%v|m%d|ns%d", c.Cons, wk, gk, throwable, localShape(g, c), c.Obj == g.anon(), c.Mk, g.NS)
 			if seen[sig] {
 				continue
 			}
@@ -563,6 +608,8 @@ type shardArg struct {
 	Sym      bool // symmetry reduction
 	Seed     int64
 	Variants string // "both" | "plain" | "throwable"
+	Anon     string // "" | "last" (the last class, a leaf, also as an anonymous class: complete up to renaming when every labelled graph is enumerated) | "leaves" (every leaf in turn)
+	NS       bool   // every program also inside a namespace (unqualified and fully qualified references)
 	Deadline int64  // unix seconds; 0 = none
 }
 
@@ -616,6 +663,26 @@ func graphWorker(w *pool.W, arg json.RawMessage) {
 				continue
 			}
 			checkGraph(w, st, seen, g, n, variants)
+			forms := []*graph{g}
+			for x := 0; x < a.NC; x++ {
+				if (a.Anon == "last" && x == a.NC-1) || (a.Anon == "leaves" && g.isLeaf(x)) {
+					h := g.clone()
+					h.AnonK = x + 1
+					st.outcomes["~graphs-with-anonymous-class"]++
+					checkGraph(w, st, seen, h, n, variants)
+					forms = append(forms, h)
+				}
+			}
+			if a.NS {
+				for _, f := range forms {
+					for ns := 1; ns <= 2; ns++ {
+						h := f.clone()
+						h.NS = ns
+						st.outcomes["~graphs-in-namespace"]++
+						checkGraph(w, st, seen, h, n, variants)
+					}
+				}
+			}
 		}
 	}
 	st.outcomes["~symmetry-skipped"] += skipped
@@ -671,7 +738,7 @@ func main() {
 	}
 	deadline := time.Now().Add(budget).Unix()
 	var shards []pool.Shard
-	addFamily := func(nc, ni int, defMode string, sym bool, variants string, split int) {
+	addFamily := func(nc, ni int, defMode string, sym bool, variants string, split int, anon string, ns bool) {
 		nf := len(forests(nc))
 		nig := len(ifaceGraphs(ni))
 		total := 1 << (nc * ni)
@@ -686,24 +753,26 @@ func main() {
 					if to > total {
 						to = total
 					}
-					shards = append(shards, pool.Shard{Kind: "graph", Arg: shardArg{NC: nc, NI: ni, Forest: f, IG: ig, DefMode: defMode, ImplFrom: from, ImplTo: to, Sym: sym, Seed: c.Seed, Variants: variants, Deadline: deadline}})
+					shards = append(shards, pool.Shard{Kind: "graph", Arg: shardArg{NC: nc, NI: ni, Forest: f, IG: ig, DefMode: defMode, ImplFrom: from, ImplTo: to, Sym: sym, Seed: c.Seed, Variants: variants, Deadline: deadline, Anon: anon, NS: ns}})
 				}
 			}
 		}
 	}
 	// complete cross product up to 3 classes + 2 interfaces (6144 graphs at 3+2)
-	addFamily(1, 2, "each", false, "both", 1)
-	addFamily(2, 2, "each", false, "both", 1)
+	// every family also with its last class written as an anonymous class expression; the small
+	// families also inside a namespace
+	addFamily(1, 2, "each", false, "both", 1, "last", true)
+	addFamily(2, 2, "each", false, "both", 1, "last", true)
 	// dispatch over all 4-class forests x all override sets
-	addFamily(4, 0, "each", false, "both", 1)
+	addFamily(4, 0, "each", false, "both", 1, "last", false)
 	// interfaces with two parents: 2 classes x 3 interfaces (I3 extends any subset of {I1,I2})
-	addFamily(2, 3, "all", false, "both", 1)
-	addFamily(3, 2, "each", false, "both", 8)
+	addFamily(2, 3, "all", false, "both", 1, "last", true)
+	addFamily(3, 2, "each", false, "both", 8, "last", !c.Quick())
 	bound := "all graphs with <=3 classes x 2 interfaces (I2 extends subset of {I1}) x implements x override sets; all 4-class forests x override sets; all 2-class x 3-interface (multiple extends) graphs"
 	if !c.Quick() {
 		// 4 classes x 3 interfaces with multiple extends, every class defining the method,
 		// reduced by class / interface renaming
-		addFamily(4, 3, "all", true, "throwable", 16)
+		addFamily(4, 3, "all", true, "throwable", 16, "leaves", false)
 		bound += "; all 4-class forests x 3-interface DAGs (multiple extends) x implements relations up to renaming"
 	}
 	likeShards(c, &shards)
